@@ -568,6 +568,19 @@ def _render_core(f, i, lane_vars):
         return "%s[%s]" % (b, R(ch[1]))
     if k == "CXXOperatorCallExpr" and n.get("opcall") == "[]":
         return "%s[%s]" % (R(ch[1]), R(ch[2]))
+    if k == "BinaryOperator" and n["op"] in ("+", "-"):
+        # integer offsets are folded: (E - 1) - 1 is E - 2 (an index through a hoisted `last = ndim - 1` is the same index)
+        def lit(x):
+            x = f.strip(x)
+            return f.nodes[x].get("v") if f.k(x) == "IntegerLiteral" else None
+        off = 0
+        e = i
+        while f.k(e) == "BinaryOperator" and f.nodes[e]["op"] in ("+", "-") and lit(f.nodes[e]["ch"][1]) is not None:
+            off += lit(f.nodes[e]["ch"][1]) if f.nodes[e]["op"] == "+" else -lit(f.nodes[e]["ch"][1])
+            e = f.strip(f.nodes[e]["ch"][0])
+        if e != i and f.strip(ch[0]) != e:
+            base = R(e)
+            return base if off == 0 else "(%s %s %d)" % (base, "+" if off > 0 else "-", abs(off))
     if k in ("BinaryOperator", "CompoundAssignOperator"):
         return "(%s %s %s)" % (R(ch[0]), n["op"], R(ch[1]))
     if k == "UnaryOperator":
